@@ -175,6 +175,13 @@ def _resync_step(k1, k2, k3, u1, u2, u3, slack, nd, g, un1, un2, s1, s2, s3, sta
     n = core.PARAMS["n"]
     tag = "resync_step"
     keys, uids, next_uid = gen(n, [k1, k2, k3], [u1, u2, u3], slack)
+    # kshift moves the folder's numbering up, so that the delivered keys straddle a multiple of 8
+    # (7, 8): the iteration order of a set of small ints is not ascending there
+    # (keys and gap concrete in that variant: a set of symbolic ints iterates in insertion order
+    # under CrossHair, only real ints show the interpreter's hash order)
+    if core.PARAMS.get("kshift"):
+        keys = [env.realize(k) + core.PARAMS["kshift"] for k in keys]
+        g = core.pick(g, 1, 3)
     seen = bits(keys, [s1, s2, s3])
     unseen = set(keys) - seen
     srv = env.new_world()
